@@ -84,7 +84,10 @@ Nests == {Wrap(k1, b) : k1 \in Kinds, b \in Inner}
 
 NsProgs == {RenderT(S("n1"), "none", NilE, "", <<>>), RenderT(S("n2"), "none", NilE, "", <<>>),
             Call("nm", <<>>, <<>>), Assign("c", P(S("a-top-level-value"))), Capture("d", <<NText("top capture")>>),
-            ForN("i", R12, <<Assign("e", P(V("i"))), RenderT(S("n2"), "none", NilE, "", <<>>)>>)}
+            ForN("i", R12, <<Assign("e", P(V("i"))), RenderT(S("n2"), "none", NilE, "", <<>>)>>),
+            \* two names for one value (an alias; the same small constant twice): each name holds it
+            If(TrueE, <<Assign("c", P(S("a-top-level-value"))), Assign("c2", P(V("c")))>>, <<>>, NoElse),
+            Assign("f", P(I(7))), Assign("g", P(I(7)))}
 Cycles == {Include(S("self"), "none", NilE, "", <<>>), RenderT(S("ra"), "none", NilE, "", <<>>), Include(S("ia"), "none", NilE, "", <<>>),
            RenderT(S("self"), "none", NilE, "", <<>>), Include(S("xa"), "none", NilE, "", <<>>), RenderT(S("xa"), "none", NilE, "", <<>>),
            ForN("i", R12, <<RenderT(S("ra"), "none", NilE, "", <<>>)>>),
